@@ -601,9 +601,19 @@ impl CommandBuilder<'_> {
                     kind: ArgumentKind::Initial,
                 };
                 if limiters.try_arg(arg).is_err() {
+                    #[cfg(findutils_verif)]
+                    verif::emit(
+                        "Subst",
+                        &format!("\"fits\":false,{}", limiters.verif_state()),
+                    );
                     return Err(CommandExecutionError::ArgumentTooLarge);
                 }
             }
+            #[cfg(findutils_verif)]
+            verif::emit(
+                "Subst",
+                &format!("\"fits\":true,{}", limiters.verif_state()),
+            );
 
             command
                 .args(&initial_args)
